@@ -55,7 +55,8 @@ impl StructAttr {
                 Fields::Unnamed(_) | Fields::Unit => None,
             }),
             tag: match variant_fields {
-                Fields::Named(_) => match enum_attr
+                // an `untagged` variant carries no tag, whatever the enum's representation is
+                Fields::Named(_) if !variant_attr.untagged => match enum_attr
                     .tagged()
                     .expect("The variant attribute is known to be valid at this point")
                 {
